@@ -4,6 +4,10 @@ CONSTANTS NMax = 35
  AllPos = TRUE
  DetMax = 8
  Draws = 4
+ PosPer = 2
+ Extra = 6000
+ PredExtra = 3000
+ IseqExtra = 600
 INVARIANT ExactPre
 INVARIANT PatternHolds
 INVARIANT FoldTheorems
